@@ -10,7 +10,7 @@ even / odd / prime / power-of-two NFFT.  Float data up to N = 512: ObsC01.tla.
 import numpy as np
 
 from .. import core, material as M, tlc, obs
-from ..kern_util import call_guard, cmp_vec
+from ..kern_util import call_guard, cmp_vec, np_int
 
 
 def window_names():
@@ -99,7 +99,7 @@ def replay_state(chk, st, cplx, names, counter):
             if not cplx and np.all(x == np.round(x)):
                 entries += [('list-int', [int(v) for v in x]), ('int64', x.astype(np.int64))]
             for ename, xin in entries:
-                ok, res = call_guard(speriodogram, xin, NFFT=nfft, detrend=False, scale_by_freq=False, window=name)
+                ok, res = call_guard(speriodogram, xin, NFFT=np_int(nfft, N + nfft), detrend=False, scale_by_freq=False, window=name)
                 chk.evaluations += 1
                 if not ok:
                     chk.violation('C01:speriodogram:%s:raises:%s' % (mode, ename), 'speriodogram raises %r' % (res,), case)
@@ -234,7 +234,7 @@ def obs_events(chk):
             ev.update(parseval_dev=0, len_ok=True, class_dev=0, real_prefix_dev=0)
         else:
             ev['skip'] = False
-            ok, p = call_guard(speriodogram, x.copy(), NFFT=nfft, detrend=False, scale_by_freq=False, window=name)
+            ok, p = call_guard(speriodogram, x.copy(), NFFT=np_int(nfft, rep), detrend=False, scale_by_freq=False, window=name)
             ok2, obj = call_guard(lambda: np.array(Periodogram(x.copy(), window=name, NFFT=nfft, scale_by_freq=False, detrend=None).psd))
             xr = x.real.copy()
             ok3, pr = call_guard(speriodogram, xr.copy(), NFFT=nfft, detrend=False, scale_by_freq=False, window=name)
